@@ -164,7 +164,7 @@ class World:
         f = self.ns.families[family]
         rid = len(self.res)
         if f["store"] == "file":
-            ident, so = os.path.join(self.dir, f"r{rid}.json"), None
+            ident, so = os.path.join(self.dir, f"r{rid}{'x' * int(self.cfg.get('name_pad', 0))}.json"), None
         elif f["store"] == "redis":
             ident, so = f"key{rid}", self.redis
         elif f["store"] == "mongo":
